@@ -201,6 +201,7 @@ class TokenizerAnalysis:
         for n in ast.walk(loop):
             if n is not loop and isinstance(n, (ast.While, ast.For, ast.Try, ast.With)):
                 raise AnalysisError('nested %s inside the token loop at line %d' % (type(n).__name__, n.lineno))
+        loop = s._inline_conditional_step(loop)
         s.loop = loop
         i = s.gen.body.index(loop)
         s.pre_stmts = s.gen.body[:i]
@@ -209,6 +210,55 @@ class TokenizerAnalysis:
         if len(gp) != 1:
             raise AnalysisError('token generator %s should take exactly the data source' % s.gen.name)
         s.src_param = gp[0]
+
+    def _inline_conditional_step(s, loop):
+        """step = self._process / if <test on the bounds>: step = self._fast_path  ...  step(frame)   is
+        (self._fast_path(frame) if <test> else self._process(frame)): the test reads only fields that nothing but the constructor
+        assigns, so evaluating it at every call changes nothing.  The choice of the step function becomes a branch on the parameters."""
+        import copy
+        I = s.I
+        body = s.gen.body
+        li = body.index(loop)
+        stored_outside_init = {t.attr for mn, m in I.methods.items() if mn != '__init__' for n in ast.walk(m)
+                               for t in (n.targets if isinstance(n, ast.Assign) else ([n.target] if isinstance(n, (ast.AugAssign, ast.AnnAssign)) else []))
+                               for t in ast.walk(t) if isinstance(t, ast.Attribute) and isinstance(t.value, ast.Name) and t.value.id == 'self' and isinstance(t.ctx, ast.Store)}
+        for ai in range(li - 1):
+            a, b = body[ai], body[ai + 1]
+            if not (isinstance(a, ast.Assign) and len(a.targets) == 1 and isinstance(a.targets[0], ast.Name) and isinstance(a.value, ast.Attribute)
+                    and isinstance(a.value.value, ast.Name) and a.value.value.id == 'self' and a.value.attr in I.methods):
+                continue
+            nm = a.targets[0].id
+            if not (isinstance(b, ast.If) and not b.orelse and len(b.body) == 1 and isinstance(b.body[0], ast.Assign) and len(b.body[0].targets) == 1
+                    and isinstance(b.body[0].targets[0], ast.Name) and b.body[0].targets[0].id == nm and isinstance(b.body[0].value, ast.Attribute)
+                    and isinstance(b.body[0].value.value, ast.Name) and b.body[0].value.value.id == 'self' and b.body[0].value.attr in I.methods):
+                continue
+            reads = [x for x in ast.walk(b.test) if isinstance(x, ast.Attribute)]
+            pure = all(isinstance(x.value, ast.Name) and x.value.id == 'self' and x.attr not in stored_outside_init and x.attr not in I.methods for x in reads) \
+                and not any(isinstance(x, (ast.Call, ast.NamedExpr, ast.Yield, ast.Await)) for x in ast.walk(b.test)) \
+                and all(isinstance(x.ctx, ast.Load) and x.id == 'self' for x in ast.walk(b.test) if isinstance(x, ast.Name))
+            nstores = sum(1 for x in ast.walk(s.gen) if isinstance(x, ast.Name) and x.id == nm and isinstance(x.ctx, ast.Store))
+            if not pure or nstores != 2:
+                continue
+            m1, m2, test = a.value, b.body[0].value, b.test
+
+            class Rw(ast.NodeTransformer):
+                def visit_Call(self, n):
+                    self.generic_visit(n)
+                    if isinstance(n.func, ast.Name) and n.func.id == nm:
+                        c1, c2 = copy.deepcopy(n), copy.deepcopy(n)
+                        c1.func, c2.func = copy.deepcopy(m1), copy.deepcopy(m2)
+                        return ast.copy_location(ast.IfExp(test=copy.deepcopy(test), body=c2, orelse=c1), n)
+                    return n
+            new_loop = ast.fix_missing_locations(Rw().visit(copy.deepcopy(loop)))
+            if any(isinstance(x, ast.Name) and x.id == nm for x in ast.walk(new_loop)):
+                continue                    # the alias is used as a value somewhere: leave everything as it is
+            g2 = copy.copy(s.gen)
+            g2.body = [st for k, st in enumerate(body) if k not in (ai, ai + 1) and st is not loop]
+            g2.body.insert(li - 2, new_loop)
+            s.gen = g2
+            I.methods[g2.name] = g2
+            return new_loop
+        return loop
 
     def fuse_frame_generator(s, gen):
         """`for T in self.g(args): BODY` at the top level of the token generator, where g is a generator method of the class of the
@@ -353,6 +403,8 @@ class TokenizerAnalysis:
                 return True
             if isinstance(v, ast.Name) and (mn, v.id) in bool_params:
                 return True
+            if isinstance(v, ast.Attribute) and isinstance(v.value, ast.Name) and v.value.id == 'self' and v.attr in pflds and pflds[v.attr][0] == 'bool' and v.attr not in stores:
+                return True                       # a boolean the constructor fixed (and nothing else assigns)
             if isinstance(v, ast.IfExp):
                 return is_boolish(mn, v.body) and is_boolish(mn, v.orelse)
             return False
@@ -1255,4 +1307,45 @@ class TokenizerAnalysis:
                 # obligations (strict: C03 minimum length; drop: C01/C04 trailing silence), so nothing is demanded here
                 s.notes = getattr(s, 'notes', []) + ['mode bits not found as boolean fields (representation not recognised); decided through the per-mode obligations only']
             s.flag_fields = dict(strict=strict_f, drop=drop_f)
+        s._stale_copies(init, obs, alarms, where0)
         return obs, alarms, spec_txt
+
+    def _stale_copies(s, init, obs, alarms, where0):
+        """the bounds are PUBLIC attributes (tokenizer.max_length = ... between two streams is honoured: every decision reads the
+        attribute): a private field computed from such a parameter in the constructor only, and read by the automaton, is a copy
+        that goes stale when the attribute is assigned -- the automaton then applies a bound the object no longer shows"""
+        params = {a.arg for a in init.args.args[1:] + init.args.kwonlyargs}
+        public = {}
+        for n in ast.walk(init):
+            if isinstance(n, ast.Assign) and isinstance(n.value, ast.Name) and n.value.id in params:
+                for t in n.targets:
+                    if isinstance(t, ast.Attribute) and isinstance(t.value, ast.Name) and t.value.id == 'self' and not t.attr.startswith('_'):
+                        public[n.value.id] = t.attr
+        # parameters that are objects (called, or whose attributes are taken) are not bounds
+        for n in ast.walk(init):
+            if isinstance(n, ast.Attribute) and isinstance(n.value, ast.Name) and n.value.id in public:
+                public.pop(n.value.id, None)
+            if isinstance(n, ast.Call):
+                for a in n.args:
+                    if isinstance(a, ast.Name) and a.id in public and isinstance(n.func, ast.Name) and n.func.id in ('callable', 'isinstance'):
+                        public.pop(a.id, None)
+        PROPS = {'max_continuous_silence': ['C03', 'C04'], 'init_max_silent': ['C03', 'C04'], 'init_min': ['C03', 'C04'], 'min_length': ['C02', 'C04'], 'max_length': ['C02', 'C04']}
+        reads = {}
+        for mn in getattr(s, 'reach', []):
+            for n in ast.walk(s.I.methods[mn]):
+                if isinstance(n, ast.Attribute) and isinstance(n.value, ast.Name) and n.value.id == 'self' and isinstance(n.ctx, ast.Load):
+                    reads.setdefault(n.attr, mn)
+        nchecked = 0
+        for n in ast.walk(init):
+            if not (isinstance(n, ast.Assign) and isinstance(n.value, (ast.Compare, ast.BinOp, ast.BoolOp, ast.UnaryOp, ast.IfExp, ast.Call))):
+                continue
+            used = sorted({x.id for x in ast.walk(n.value) if isinstance(x, ast.Name) and x.id in public})
+            for t in n.targets:
+                if not (isinstance(t, ast.Attribute) and isinstance(t.value, ast.Name) and t.value.id == 'self' and t.attr.startswith('_')):
+                    continue
+                nchecked += 1
+                if used and t.attr not in getattr(s, 'stores', {}) and t.attr in reads:
+                    props = sorted({p_ for u in used for p_ in PROPS.get(u, ['C02', 'C03', 'C04'])})
+                    s._ob(obs, alarms, props, 'the automaton reads the public bound %s itself, not a copy computed at construction (field %s = %s, read by %s): assigning the attribute between two streams is honoured'
+                          % ('/'.join(public[u] for u in used), t.attr, ast.unparse(n.value)[:60], reads[t.attr]), [], False, None, 'ctor', [], '%s:%d' % (s.relname, n.lineno), None)
+        obs.append(dict(props=['C02', 'C03'], rule='no decision of the automaton reads a construction-time copy of a public bound (%d private constructor fields examined)' % nchecked, ok=True, key='-', input='ctor', where=where0))
